@@ -855,7 +855,9 @@ func ruleChainLinks(c *Check, p *Prog, g *Graph, step *ssa.Function, hdrLit *ssa
 			return 0, false
 		}
 		a, b := t2.Args[0].String(), t2.Args[1].String()
-		isNew := func(s string) bool { return strings.Contains(s, "pkg/store.Store).Height(") && strings.Contains(s, "+ 1") }
+		isNew := func(s string) bool {
+			return strings.Contains(s, "pkg/store.Store).Height(") && strings.Contains(s, "+ 1")
+		}
 		isInit := func(s string) bool { return strings.HasSuffix(s, ".InitialHeight") }
 		le := false
 		switch {
